@@ -77,7 +77,7 @@ def cpos(n: int) -> str:
 
 def cq(x) -> str:
     f = Fraction(x)
-    return f"(({f.numerator})%Z # {f.denominator}%positive)"
+    return f"(Qmake ({f.numerator})%Z {f.denominator}%positive)"
 
 
 def cbool(b: bool) -> str:
@@ -422,3 +422,104 @@ def compare(check: Check, cases, impl_vals, model_vals, describe=lambda c: c, ma
     check.cov["evaluations"] += len(cases)
     check.cov["traces_validated_against_impl"] += len(cases) - len(diffs)
     return diffs
+
+
+# ----------------------------------------------------------------------------- value comparison
+def fl(x: float) -> dict:
+    """An implementation float, compared with a model rational r by  float(r) == x  (one correctly
+    rounded conversion; float(Fraction) is correctly rounded)."""
+    if x != x:
+        return {"f": "nan"}
+    if x in (float("inf"), float("-inf")):
+        return {"f": repr(x)}
+    return {"f": float(x).hex()}
+
+
+def veq(a, b) -> bool:
+    """impl value a  vs  model value b."""
+    if isinstance(a, dict) and "f" in a:
+        if isinstance(b, dict) and "q" in b:
+            if a["f"] in ("nan", "inf", "-inf"):
+                return False
+            try:
+                return float(Fraction(b["q"][0], b["q"][1])) == float.fromhex(a["f"])
+            except OverflowError:
+                return False
+        return False
+    if isinstance(a, list) and isinstance(b, list):
+        return len(a) == len(b) and all(veq(x, y) for x, y in zip(a, b))
+    if isinstance(a, dict) and isinstance(b, dict):
+        return a == b
+    return type(a) == type(b) and a == b
+
+
+def compare_veq(check: "Check", cases, impl_vals, model_vals):
+    diffs = [i for i, (a, b) in enumerate(zip(impl_vals, model_vals)) if not veq(a, b)]
+    check.cov["evaluations"] += len(cases)
+    check.cov["traces_validated_against_impl"] += len(cases) - len(diffs)
+    return diffs
+
+
+def std_failure(ck: "Check", prop_file: str, cases, diffs, impl_vals, model_vals, oracle_hits, script: str,
+                sig_of=lambda c, v: "oracle"):
+    """Common tail of a check: turn broken proof / correspondence into VIOLATION lines.
+    oracle_hits: list of (case, description) found by the implementation-level oracle."""
+    pf = getattr(ck, "proof_failed", None)
+    if not diffs and not pf and not oracle_hits:
+        return
+    if oracle_hits:
+        oracle_hits = sorted(oracle_hits, key=lambda cv: len(json.dumps(cv[0], default=str)))
+        seen = set()
+        for c, v in oracle_hits:
+            sig = sig_of(c, v)
+            if sig in seen:
+                continue
+            seen.add(sig)
+            ck.violation(sig, {"cases": [c], "oracle": v,
+                               "replay_cmd": f"cd /verif && ./check {ck.pid} --replay <this file>"}, True,
+                         f"{v if isinstance(v, str) else json.dumps(v, default=str)[:160]} on {json.dumps(c, default=str)[:200]}")
+        return
+    if diffs:
+        i = diffs[0]
+        ck.broken_tie("correspondence", f"{len(diffs)} of {len(cases)} cases: model and implementation differ",
+                      {"cases": [cases[i]], "impl": impl_vals[i], "model": model_vals[i],
+                       "theorem_or_correspondence": f"correspondence of {script} (model vs implementation)",
+                       "all_diff_indices": diffs[:50]})
+    if pf:
+        ck.broken_tie("proof", f"{prop_file} no longer compiles: a proof obligation fails",
+                      {"theorem_or_correspondence": prop_file, "log": pf["log"][-3000:]})
+
+
+# ----------------------------------------------------------------------------- JSON-like metadata <-> val
+def cval(x) -> str:
+    """Python JSON-like object -> Coq `val` term."""
+    if x is None:
+        return "VNone"
+    if isinstance(x, bool):
+        return f"(VBool {cbool(x)})"
+    if isinstance(x, int):
+        return f"(VInt {cz(x)})"
+    if isinstance(x, Fraction):
+        return f"(VQ ({x.numerator})%Z {x.denominator}%positive)"
+    if isinstance(x, str):
+        return f"(VStr {cstr(x)})"
+    if isinstance(x, (list, tuple)):
+        return "(VList " + clist([cval(e) for e in x]) + ")"
+    if isinstance(x, dict):
+        return "(VList [VStr \"#dict\"; VList " + clist(["(VList [VStr " + cstr(k) + "; " + cval(v) + "])" for k, v in x.items()]) + "])"
+    raise TypeError(type(x))
+
+
+def jval(x):
+    """Python object -> the JSON value `show` prints for the corresponding val."""
+    if x is None or isinstance(x, (bool, int, str)):
+        return x
+    if isinstance(x, Fraction):
+        return q(x)
+    if isinstance(x, float):
+        return fl(x)
+    if isinstance(x, (list, tuple)):
+        return [jval(e) for e in x]
+    if isinstance(x, dict):
+        return ["#dict", [[k, jval(v)] for k, v in x.items()]]
+    return {"err": "unrepresentable:" + type(x).__name__}
